@@ -214,7 +214,10 @@ class Check:
                 break
             if i % n != k:
                 continue
+            tc = time.time()
             r = self._run_one(case, args.tier)
+            if os.environ.get("VERIF_TIMING"):
+                sys.stderr.write(f"TIMING {time.time() - tc:.1f}s worker={k} case#{i} {json.dumps(case, default=repr)[:200]}\n")
             merged.evals += r.evals
             merged.keys.extend(r.keys)
             for v in r.viol:
@@ -271,6 +274,10 @@ class Check:
                     so, _ = p.communicate()
                     merged.inconclusive.append(f"worker {k} hit the wall-clock watchdog")
                     continue
+                if os.environ.get("VERIF_TIMING"):
+                    for line in so.decode(errors="replace").splitlines():
+                        if line.startswith("TIMING"):
+                            print(line)
                 if p.returncode != 0 or not out.exists():
                     merged.inconclusive.append(
                         f"worker {k} exited {p.returncode}: {so.decode(errors='replace')[-2000:]}")
